@@ -337,13 +337,16 @@ OpenArchive(bs) ==
 
 \* RefReadFile: look the name up and decode its sectors under dialect d.  `ar` = OpenArchive(bs),
 \* ht/bt its tables (computed once per archive by the caller).
-RefReadFile(bs, ar, ht, bt, name, d) ==
-  LET slot == HashLookup(ht, ar.hn.htcount, name)
+\* RefReadFileL: the same for the entry of a given locale (exact locale, else neutral, else first)
+RefReadFileL(bs, ar, ht, bt, name, locale, d) ==
+  LET slot == HashLookupL(ht, ar.hn.htcount, name, locale)
   IN  IF slot < 0 THEN NoFile("notfound")
       ELSE LET blk == NatOf(ht[slot].blk)
            IN  IF blk < 0 \/ blk >= ar.hn.btcount THEN NoFile("malformed:blockindex")
                ELSE [ReadBlock(bs, ar.base, SectorSize(ar.hn.shift), bt[blk], blk, name, d)
                        EXCEPT !.locale = ht[slot].locale, !.platform = ht[slot].platform]
+
+RefReadFile(bs, ar, ht, bt, name, d) == RefReadFileL(bs, ar, ht, bt, name, 0, d)
 
 \* RefRead(bytes, names, d) = [name |-> decoded file]   (names: a set of byte strings)
 RefRead(bs, names, d) ==
